@@ -518,6 +518,9 @@ def run_check(check, tier, seed):
             broken.append(('obligation', ob[0]))
 
     # 4./5. cases
+    from . import srccov
+    if os.environ.get('AHP_SRCCOV', '1') != '0':
+        srccov.start(REPO)
     rng = random.Random(seed)
     findings = load_findings(prop_id)
     seen = set()
@@ -647,6 +650,7 @@ def run_check(check, tier, seed):
         violations = 1
         replay_paths.append(path)
 
+    srccov.stop()
     wall = time.time() - t0
     samples = []
     for c in cases[:2] + cases[len(cases) // 2: len(cases) // 2 + 1] + cases[-1:]:
@@ -677,6 +681,7 @@ def run_check(check, tier, seed):
             'broken': [b[0] for b in broken],
             'known_findings_reproduced': sorted(known_hit),
             'extra': check.extra_evidence(),
+            'source_coverage': srccov.report(REPO, VERIF, prop_id),
         },
         'assumptions': list(check.assumptions),
         'wall_s': round(wall, 2),
